@@ -32,7 +32,7 @@ ToposCore == {<<T1("h1"), T2("h1")>>, <<T1("h1"), T2("h2")>>}
 ToposMid == ToposCore \cup {<<T1("h1"), T2("h2"), T3("h1")>>}
 ToposLarge == ToposMid \cup {<<T1("h1")>>}
 ToposFull == ToposLarge \cup {<<T1("h1"), T2("h1"), T3("h2")>>, <<T1("h1"), T2("h2"), T3("h2")>>, <<T1("h2"), T2("h1")>>}
-Topos == CASE Size = "core" -> ToposCore [] Size = "mid" -> ToposMid [] Size = "large" -> ToposLarge [] OTHER -> ToposFull
+Topos == CASE Size = "core" -> ToposCore [] Size = "mid" -> ToposCore [] Size = "large" -> ToposLarge [] OTHER -> ToposFull
 Ids(t) == {t[i].id : i \in 1..Len(t)}
 OwnerPresent(lvl, t) == lvl \in {"grp", "root"} \/ \E k \in Ids(t) : lvl \in {"tmpl:" \o k, "role:" \o k}
 
